@@ -226,7 +226,9 @@ class IOBase(Communicator):
                 self.log.error('callback: %s', e)
                 removeme = True
             if removeme:
-                self._reconnectCallbacks.pop(key)
+                # (may be removed already: a callback talking to the device may have
+                # triggered a further reconnect, which runs the callbacks itself)
+                self._reconnectCallbacks.pop(key, None)
 
     def communicate(self, command):
         return NotImplementedError
